@@ -836,11 +836,35 @@ pub fn gen_many_modes(d: &mut Dec) -> Vec<ModeSpec> {
     modes
 }
 
-/// A huge input (66-75 thousand characters, beyond 16-bit offsets / counts) made of a repeated
-/// generated chunk.
-pub fn gen_huge_input(d: &mut Dec, model: &Model) -> String {
-    let chunk = gen_long_input(d, model, 20, 60);
-    let chunk = if chunk.is_empty() { "a ".to_string() } else { chunk };
+/// A configuration on which scanning is linear in the input whatever the input is (every pattern
+/// is a run of one class): huge inputs are only combined with it, because scnr legitimately needs
+/// quadratic time when a pattern like `a+b` fails late at every position.
+pub fn benign_modes() -> Vec<ModeSpec> {
+    let p = |s: &str, tt: usize| PatSpec {
+        rx: parse_supported(s),
+        tt,
+        la: None,
+    };
+    vec![
+        ModeSpec {
+            name: "INITIAL".into(),
+            pats: vec![p("[a-z]+", 1), p("[0-9]+", 2), p("[ \\t]+", 3), p("#", 4), p("\\n", 6)],
+            transitions: vec![(4, 1)],
+        },
+        ModeSpec {
+            name: "M1".into(),
+            pats: vec![p("[a-z0-9 ]+", 5), p("\\n", 6), p("#", 4)],
+            transitions: vec![(4, 0)],
+        },
+    ]
+}
+
+/// A huge input (66-75 thousand characters, beyond 16-bit offsets / counts) for `benign_modes`.
+pub fn gen_huge_input(d: &mut Dec, _model: &Model) -> String {
+    let mut chunk = String::new();
+    for _ in 0..20 + d.below(40) {
+        chunk.push(*d.pick(&['a', 'b', 'z', '1', '0', ' ', ' ', '\n', '#', 'é', 'a', 'b']));
+    }
     let target = 66_000 + d.below(9_000);
     let mut s = String::with_capacity(target * 2);
     let mut n = 0;
